@@ -77,7 +77,10 @@ def digest(obj, style=True, label=True):
         if hasattr(obj, a):
             d.append((a, getattr(obj, a)))
             v = getattr(obj, a + "_data", None)   # e.g. the array of open edges stored by check_open()
-            d.append((a + "_data", arr(np.asarray(v)) if v is not None else None))
+            if isinstance(v, (list, tuple)):     # faces subsets of a disconnected mesh: parts of different sizes
+                d.append((a + "_data", tuple(arr(np.asarray(x)) for x in v)))
+            else:
+                d.append((a + "_data", arr(np.asarray(v)) if v is not None else None))
     if hasattr(obj, "_handedness"):
         d.append(("hand", obj._handedness))
     if hasattr(obj, "_field_func"):
